@@ -778,6 +778,10 @@ pub fn run_c02(a: &Args, shared: &SharedReport) {
             }
             for m1 in 0..nm {
                 for m2 in 0..nm {
+                    if !th && n == 3 && (m1 + m2) % 2 == 1 {
+                        // quick: every other labelling at n=3 (all of them at n<=2 and in the thorough tier)
+                        continue;
+                    }
                     let mut variants: Vec<Vec<(Expectation, u8)>> = vec![vec![(Expectation::Always, m1 as u8), (Expectation::Sometimes, m2 as u8)]];
                     if (m1 * 3 + m2) % 4 == 2 {
                         // the second property of each kind must be decided as exactly as the first
@@ -824,7 +828,7 @@ pub fn run_c02(a: &Args, shared: &SharedReport) {
         let masks = structured_masks(n);
         for (i, &m1) in masks.iter().enumerate() {
             // quick: three sometimes-masks per always-mask; thorough: all pairs
-            let m2s: Vec<u8> = if th { masks.clone() } else { vec![masks[(i * 7 + 3) % masks.len()], masks[(i * 5 + 1) % masks.len()], !m1 & masks[1]] };
+            let m2s: Vec<u8> = if th { masks.clone() } else { vec![masks[(i * 7 + 3) % masks.len()], !m1 & masks[1]] };
             for m2 in m2s {
                 let props = if (i + m2 as usize) % 3 == 0 {
                     vec![(Expectation::Sometimes, 0), (Expectation::Always, m1), (Expectation::Sometimes, m2)]
@@ -992,7 +996,7 @@ fn run_eventually(a: &Args, shared: &SharedReport, checks: Vec<&'static str>, wi
                         if th && n == 3 && (pi as u32 + ma) % 2 == 1 {
                             continue;
                         }
-                        if !th && n == 3 && (pi as u32 + ma) % 3 != 1 {
+                        if !th && n == 3 && (pi as u32 + ma) % 4 != 1 {
                             // quick: alternate the two property sets over the masks at n=3
                             continue;
                         }
@@ -1049,7 +1053,7 @@ fn run_eventually(a: &Args, shared: &SharedReport, checks: Vec<&'static str>, wi
         for (i, &ma) in masks.iter().enumerate() {
             let mb = masks[(i * 5 + 2) % masks.len()];
             for (pi, props) in eventually_propsets(n, ma, mb, th).into_iter().enumerate() {
-                if !th && (pi + i) % 3 != 0 {
+                if !th && (pi + i) % 4 != 0 {
                     continue;
                 }
                 idx += 1;
@@ -1124,7 +1128,7 @@ pub fn run_c03(a: &Args, shared: &SharedReport) {
                 let ts = if st.is_sim() { Some(12) } else { None };
                 let all = [Finish::All, Finish::Any, Finish::AllFailures, Finish::AllOf(vec![0, 2]), Finish::AnyOf(vec![1, 2])];
                 fi += 1;
-                let chosen: Vec<Finish> = if th { all.to_vec() } else { vec![all[fi % 5].clone(), all[(fi + 2) % 5].clone()] };
+                let chosen: Vec<Finish> = if th { all.to_vec() } else if fi % 2 == 0 { vec![all[fi % 5].clone(), all[(fi + 2) % 5].clone()] } else { vec![all[(fi + 1) % 5].clone()] };
                 for f in chosen {
                     run.case(&m, &orc, &Config { finish: f, target_states: ts, ..Config::plain(st.clone()) }, None);
                 }
